@@ -26,12 +26,13 @@ type Op struct {
 	Op       string `json:"op"`
 	R        string `json:"r,omitempty"`
 	From     string `json:"from,omitempty"`
-	C        string `json:"c,omitempty"`  // content id
-	DD       string `json:"dd,omitempty"` // content whose digest is declared ("?" = unknown digest)
-	DS       int    `json:"ds"`           // declared size
-	T        string `json:"t,omitempty"`  // tag ("-" = none)
-	MT       string `json:"mt,omitempty"` // abstract media type
-	U        string `json:"u,omitempty"`  // upload session
+	C        string `json:"c,omitempty"`   // content id
+	DD       string `json:"dd,omitempty"`  // content whose digest is declared ("?" = unknown digest)
+	DS       int    `json:"ds"`            // declared size
+	T        string `json:"t,omitempty"`   // tag ("-" = none)
+	MT       string `json:"mt,omitempty"`  // abstract media type
+	BMT      string `json:"bmt,omitempty"` // abstract media type a blob is pushed under ("" = octet-stream)
+	U        string `json:"u,omitempty"`   // upload session
 	Off      int    `json:"off"`
 	Chunk    int    `json:"chunk"`
 	Data     []int  `json:"data,omitempty"`
@@ -106,6 +107,7 @@ type world struct {
 	opNo       int64
 	setOp      func(int64)
 	direct     bool   // the current op bypasses the stack (pre-population)
+	blobTypes  bool   // blobs may be pushed under media types other than application/octet-stream
 	rawURL     string // outermost HTTP server when the stack is one HTTP hop (wire-level upload requests)
 	serverURL  string // outermost HTTP server of the stack ("" if none or single POST disabled)
 	// noFreshIDs: resuming a session the stack has not issued an id for is skipped
@@ -276,7 +278,14 @@ func (w *world) exec(ctx context.Context, op Op) (e ev) {
 	switch op.Op {
 	case "PushBlob":
 		c := cat.byID[op.C]
-		desc := ociregistry.Descriptor{MediaType: mtOctet, Digest: w.digestOf(op.DD), Size: int64(op.DS)}
+		// the media type a blob is pushed with is part of what the registry stores; the upload protocol
+		// has no place for it, so it is only varied where no HTTP hop is in the way
+		bmt := "octet"
+		if op.BMT != "" && w.blobTypes {
+			bmt = op.BMT
+		}
+		e["bmt"] = bmt
+		desc := ociregistry.Descriptor{MediaType: mtConcrete[bmt], Digest: w.digestOf(op.DD), Size: int64(op.DS)}
 		pbuf := append([]byte(nil), c.Data...)
 		defer scribble(pbuf)
 		var content io.Reader = bytes.NewReader(pbuf)
